@@ -16,6 +16,7 @@ func init() {
 		timerNilSafe(c, "C07.4")
 		c19Protocol(c)           // C07.5: Refresh re-arms on every path (shared with C19.1)
 		c19Cancelled(c, "C07.9") // a cancelled deadline does not fire, a Refresh does not revive it
+		v3BinaryPayloadCodec(c, "C07.11", true)
 		c03CloseEpilogue(c)      // C07.6: both timers are cleared before the close event (C03.3)
 		c07ClearTransport(c)
 		c19WhoClears(c) // C07.7: nobody else cancels the heartbeat timers
